@@ -9,7 +9,7 @@ META = {
              'list of the specification; signature = (record length, #objects, sorted payload length classes, '
              'payload kinds); non-trivial when a payload is empty, shorter than 8 bytes or spans several segments'),
     'required_obs': {'quick': ['c16-empty', 'c16-short', 'c16-ends-01', 'c16-multi-segment', 'c16-multi-object',
-                               'c16-str', 'c16-bytearray', 'c16-payload']},
+                               'c16-str', 'c16-bytearray', 'c16-payload', 'c16-same-named-objects']},
     'exhaustive_windows': {
         'quick': ['payload lengths 0..16 x name lengths 1..4 (single payload)'],
         'thorough': ['payload lengths 0..40 x name lengths 1..10 (single payload)',
@@ -77,8 +77,12 @@ def run_case(case):
         sp = gen.minimal(mx, rows=r.randint(1, 3), output_chunk_size=r.choice([mx, 2 ** 14, 2 ** 16]))
         nobj = r.choice([1, 1, 2, 3, 4])
         first = len(sp['ops'])
+        same = nobj > 1 and r.random() < 0.4      # objects sharing one name (told apart by their copy numbers)
+        shared_name = gen.name(r, 'NFSAME', r.choice([6, 12, 40]))
+        if same:
+            obs['c16-same-named-objects'] = obs.get('c16-same-named-objects', 0) + 1
         for j in range(nobj):
-            sp['ops'].append(gen.nf_op(gen.name(r, f'NF{j}', r.choice([3, 4, 5, 12, 40])),
+            sp['ops'].append(gen.nf_op(shared_name if (same and (j == 0 or r.random() < 0.7)) else gen.name(r, f'NF{j}', r.choice([3, 4, 5, 12, 40])),
                                        **({'consumer_name': 'CN%d' % j} if r.random() < 0.5 else {})))
         npay = r.choice([0, 1, 2, 5, 12, 40])
         classes = set()
